@@ -290,6 +290,20 @@ Definition overlay_top_w_size (c : ovcfg) (maxcol maxrow lft rgt top bottom : Z)
       end
   end.
 
+(* Overlay.render: the canvas top_w renders (the stub renders exactly the size it is handed;
+   a fixed stub its packed size), trimmed where a margin is negative
+     top_c.pad_trim_left_right(min(0, left), min(0, right)); top_c.pad_trim_top_bottom(min(0, top), min(0, bottom))
+   and placed by CanvasOverlay(top_c, bottom_c, max(left, 0), top): (x, y, cols, rows) *)
+Definition overlay_placement (c : ovcfg) (maxcol maxrow pack_w pack_h : Z) (flow_rows : Z -> Z)
+  (lft rgt top bottom : Z) : Z * Z * Z * Z :=
+  let '(tw, th) :=
+    match overlay_top_w_size c maxcol maxrow lft rgt top bottom with
+    | [] => (pack_w, pack_h)
+    | [cols] => (cols, flow_rows cols)
+    | cols :: rows :: _ => (cols, rows)
+    end in
+  (Z.max lft 0, top, tw + Z.min 0 lft + Z.min 0 rgt, th + Z.min 0 top + Z.min 0 bottom).
+
 (* ------------------------------------------------------------------ *)
 (* GridFlow.generate_display_widget: breaking the cells into rows      *)
 
@@ -317,6 +331,29 @@ Definition gridflow_rows (maxcol hsep : Z) (cells : list Z) : list (list (Z * Z)
 
 (* pad.width of a finished row = used_space - h_sep *)
 Definition gridflow_pad_width (hsep : Z) (row : list (Z * Z)) : Z := row_used hsep row - hsep.
+
+(* GridFlow._get_maxcol(()) and pack(()): the natural width, from the configured cell width *)
+Definition gridflow_natural_width (n cw hsep : Z) : Z :=
+  if 0 <? n then n * cw + (n - 1) * hsep else 0.
+
+(* c.focus_position of a row: the position of the GridFlow's focus cell in it, else 0
+   (the stub cells are not selectable) *)
+Fixpoint row_focus (gfocus : Z) (row : list (Z * Z)) (k : Z) : Z :=
+  match row with
+  | [] => 0
+  | p :: r => if fst p =? gfocus then k else row_focus gfocus r (k + 1)
+  end.
+
+(* One row of the display widget laid out in maxcol columns:
+     pad = Padding(c, self.align); pad.width = used_space - h_sep   (width type GIVEN)
+     c = Columns([...(w, (GIVEN, min(width_amount, maxcol)))...], self.h_sep)    (min_width 1)
+   Padding.padding_values -> (left, right); Padding.render hands c  maxcol - left - right  columns;
+   c.column_widths of that. *)
+Definition gridflow_row_layout (maxcol hsep : Z) (al : atype) (gfocus : Z) (row : list (Z * Z))
+  : (Z * Z) * result (list Z) :=
+  let lr := calculate_left_right_padding maxcol al 0 WGiven (gridflow_pad_width hsep row) None 0 0 in
+  (lr, column_widths (map (fun p : Z * Z => (KGiven, snd p)) row) hsep 1 (row_focus gfocus row 0)
+                     (padding_child_cols maxcol lr)).
 
 (* ------------------------------------------------------------------ *)
 (* wire format (harness/props/c19.py)                                  *)
@@ -455,19 +492,182 @@ Definition run_one (l : list Z) : list Z :=
               let c := OvCfg p f in
               match overlay_padding_filler c maxcol maxrow pw ph (spy_rows fr frn thr) with
               | Ok (le, ri, t, b) =>
-                  [0; le; ri; t; b] ++ enc_list (overlay_top_w_size c maxcol maxrow le ri t b)
+                  let '(x, y, w, h) := overlay_placement c maxcol maxrow pw ph (spy_rows fr frn thr) le ri t b in
+                  [0; le; ri; t; b] ++ enc_list (overlay_top_w_size c maxcol maxrow le ri t b) ++ [x; y; w; h]
               | Err e => [1; errcode e]
               end
           | _ => [-1]
           end
       | None => [-1]
       end
-  (* 9: GridFlow rows: maxcol h_sep n widths *)
-  | 9 :: maxcol :: hsep :: r =>
+  (* 9: GridFlow: maxcol h_sep align cell_width focus n widths
+        reply: natural width, #rows, per row: pad.width, left, right, (index, width)*, the row's column widths *)
+  | 9 :: maxcol :: hsep :: al :: cw :: gfocus :: r =>
       match dec_list r with
       | Some (cells, []) =>
           let rows := gridflow_rows maxcol hsep cells in
-          zlen rows :: flat_map (fun row => gridflow_pad_width hsep row :: enc_pairs row) rows
+          gridflow_natural_width (zlen cells) cw hsep :: zlen rows ::
+          flat_map (fun row =>
+                      let '((le, ri), inner) := gridflow_row_layout maxcol hsep (dec_atype al) gfocus row in
+                      gridflow_pad_width hsep row :: le :: ri :: enc_pairs row ++ enc_res_list inner) rows
+      | _ => [-1]
+      end
+  | _ => [-1]
+  end.
+
+(* ------------------------------------------------------------------ *)
+(* Columns as a stateful object: the width cache of column_widths       *)
+(* (self._cache_maxcol, self._cache_column_widths), _invalidate(), and the events that
+   change the configuration.  A column is (kind, amount) plus a flag saying that a PACK child
+   is the harness' flow stub, whose pack((maxcol,)) answers min(natural width, maxcol). *)
+
+Definition pcol := (col * bool)%type.
+
+(* static_w of a PACK column = what the child's pack() answers now *)
+Definition resolve_col (maxcol : Z) (p : pcol) : col :=
+  match p with
+  | ((KPack, a), true) => (KPack, spy_pack_flow a maxcol)
+  | (c, _) => c
+  end.
+
+Definition is_pack (p : pcol) : bool := match fst (fst p) with KPack => true | _ => false end.
+(* any(t == WHSettings.PACK for w, (t, n, b) in self.contents) *)
+Definition has_pack (l : list pcol) : bool := existsb is_pack l.
+
+Record colstate := ColState {
+  cs_cols : list pcol; cs_div : Z; cs_minw : Z; cs_focus : Z;
+  cs_cache_maxcol : option Z;       (* self._cache_maxcol *)
+  cs_cache_widths : list Z }.       (* self._cache_column_widths *)
+
+Inductive colop :=
+  | OLayout (maxcol : Z)            (* column_widths((maxcol,)) *)
+  | OFocus (i : Z)                  (* focus_position = i: the focus-changed callback calls _invalidate() *)
+  | OSetPack (i : Z) (a : Z)        (* a packed child changes its natural width: Columns is not told *)
+  | OSetOpt (i : Z) (c : pcol)      (* contents[i] = ...: the modified callback calls _invalidate() *)
+  | OAppend (c : pcol)              (* contents.append(...) *)
+  | OPopLast                        (* del contents[-1] *)
+  | OSetDiv (d : Z)                 (* self.dividechars = d: a plain attribute, nothing is invalidated *)
+  | OSetMinw (m : Z)                (* self.min_width = m: likewise *)
+  | OInvalidate.                    (* self._invalidate() *)
+
+(* Columns._invalidate: self._cache_maxcol = None *)
+Definition cs_invalidate (st : colstate) : colstate :=
+  ColState (cs_cols st) (cs_div st) (cs_minw st) (cs_focus st) None (cs_cache_widths st).
+
+Definition cs_with_cols (st : colstate) (l : list pcol) : colstate :=
+  ColState l (cs_div st) (cs_minw st) (cs_focus st) (cs_cache_maxcol st) (cs_cache_widths st).
+
+(* the computation column_widths does when it does not answer from the cache *)
+Definition cs_compute (st : colstate) (maxcol : Z) : result (list Z) :=
+  column_widths (map (resolve_col maxcol) (cs_cols st)) (cs_div st) (cs_minw st) (cs_focus st) maxcol.
+
+(* column_widths with its first lines:
+     if maxcol == self._cache_maxcol and not any(t == PACK ...): return self._cache_column_widths
+     ... ; self._cache_maxcol = maxcol; self._cache_column_widths = widths; return widths
+   (an exception leaves the cache as it was) *)
+Definition cs_layout (st : colstate) (maxcol : Z) : colstate * result (list Z) :=
+  if (match cs_cache_maxcol st with Some m => m =? maxcol | None => false end) && negb (has_pack (cs_cols st))
+  then (st, Ok (cs_cache_widths st))
+  else
+    match cs_compute st maxcol with
+    | Ok ws => (ColState (cs_cols st) (cs_div st) (cs_minw st) (cs_focus st) (Some maxcol) ws, Ok ws)
+    | Err e => (st, Err e)
+    end.
+
+Fixpoint set_nth_p (l : list pcol) (i : nat) (v : pcol) : list pcol :=
+  match l, i with
+  | [], _ => []
+  | _ :: r, O => v :: r
+  | x :: r, S k => x :: set_nth_p r k v
+  end.
+
+(* the packed child at position i now reports width a (no effect on other kinds of column) *)
+Fixpoint set_pack (l : list pcol) (i : nat) (a : Z) : list pcol :=
+  match l, i with
+  | [], _ => []
+  | ((KPack, _), fl) :: r, O => ((KPack, a), fl) :: r
+  | x :: r, O => x :: r
+  | x :: r, S k => x :: set_pack r k a
+  end.
+
+Definition cs_step (st : colstate) (o : colop) : colstate * option (result (list Z)) :=
+  match o with
+  | OLayout maxcol => let '(st', r) := cs_layout st maxcol in (st', Some r)
+  | OFocus i =>
+      (* MonitoredFocusList calls the focus-changed callback only when the index changes *)
+      if i =? cs_focus st then (st, None)
+      else (cs_invalidate (ColState (cs_cols st) (cs_div st) (cs_minw st) i (cs_cache_maxcol st) (cs_cache_widths st)), None)
+  | OSetPack i a => (if i <? 0 then st else cs_with_cols st (set_pack (cs_cols st) (Z.to_nat i) a), None)
+  | OSetOpt i c =>
+      (cs_invalidate (if i <? 0 then st else cs_with_cols st (set_nth_p (cs_cols st) (Z.to_nat i) c)), None)
+  | OAppend c => (cs_invalidate (cs_with_cols st (cs_cols st ++ [c])), None)
+  | OPopLast => (cs_invalidate (cs_with_cols st (removelast (cs_cols st))), None)
+  | OSetDiv d => (ColState (cs_cols st) d (cs_minw st) (cs_focus st) (cs_cache_maxcol st) (cs_cache_widths st), None)
+  | OSetMinw m => (ColState (cs_cols st) (cs_div st) m (cs_focus st) (cs_cache_maxcol st) (cs_cache_widths st), None)
+  | OInvalidate => (cs_invalidate st, None)
+  end.
+
+(* the results of the layouts of a history, in order *)
+Fixpoint cs_run (st : colstate) (ops : list colop) : list (result (list Z)) :=
+  match ops with
+  | [] => []
+  | o :: r =>
+      let '(st', out) := cs_step st o in
+      match out with Some x => x :: cs_run st' r | None => cs_run st' r end
+  end.
+
+(* Columns.__init__: empty cache *)
+Definition cs_init (cols : list pcol) (div minw focus : Z) : colstate := ColState cols div minw focus None [].
+
+(* wire: kind amount flag *)
+Definition dec_pcol (kd a fl : Z) : pcol := ((dec_ckind kd, a), negb (fl =? 0)).
+
+Fixpoint dec_pcols (n : nat) (l : list Z) : option (list pcol * list Z) :=
+  match n with
+  | O => Some ([], l)
+  | S k =>
+      match l with
+      | kd :: a :: fl :: r =>
+          match dec_pcols k r with
+          | Some (cs, rest) => Some (dec_pcol kd a fl :: cs, rest)
+          | None => None
+          end
+      | _ => None
+      end
+  end.
+
+(* steps: 1 maxcol | 2 i | 3 i a | 4 i kind a flag | 5 kind a flag | 6 | 7 d | 8 m | 9 *)
+Fixpoint dec_colops (fuel : nat) (l : list Z) : list colop :=
+  match fuel with
+  | O => []
+  | S k =>
+      match l with
+      | 1 :: m :: r => OLayout m :: dec_colops k r
+      | 2 :: i :: r => OFocus i :: dec_colops k r
+      | 3 :: i :: a :: r => OSetPack i a :: dec_colops k r
+      | 4 :: i :: kd :: a :: fl :: r => OSetOpt i (dec_pcol kd a fl) :: dec_colops k r
+      | 5 :: kd :: a :: fl :: r => OAppend (dec_pcol kd a fl) :: dec_colops k r
+      | 6 :: r => OPopLast :: dec_colops k r
+      | 7 :: d :: r => OSetDiv d :: dec_colops k r
+      | 8 :: m :: r => OSetMinw m :: dec_colops k r
+      | 9 :: r => OInvalidate :: dec_colops k r
+      | _ => []
+      end
+  end.
+
+(* 11: a history on one Columns object: n (kind amount flag)*n div minw focus steps...
+   reply: for every layout, length-prefixed, the reply of sub-model 4 *)
+Definition run_colhist (l : list Z) : list Z :=
+  match l with
+  | n :: r =>
+      if n <? 0 then [-1] else
+      match dec_pcols (Z.to_nat n) r with
+      | Some (cols, div :: minw :: focus :: steps) =>
+          let outs := cs_run (cs_init cols div minw focus) (dec_colops (length steps) steps) in
+          flat_map (fun res : result (list Z) =>
+                      let o := enc_res_list res ++
+                               match res with Ok ws => enc_pairs (cw_rendered ws 0) | Err _ => [] end in
+                      zlen o :: o) outs
       | _ => [-1]
       end
   | _ => [-1]
@@ -489,5 +689,6 @@ Fixpoint run_batch (fuel : nat) (l : list Z) : list Z :=
 Definition run_case (l : list Z) : list Z :=
   match l with
   | 10 :: r => run_batch (length r) r
+  | 11 :: r => run_colhist r
   | _ => run_one l
   end.
